@@ -55,6 +55,12 @@ def s_vla(n, t, length, length2=None):
     if length2 is not None:
         d["len2"] = length2
     return d
+def s_vtypedef(n, t, length, length2=None):
+    d = {"k": "vtypedef", "n": n, "t": t, "len": length}
+    if length2 is not None:
+        d["len2"] = length2
+    return d
+def s_vlat(n, tn): return {"k": "vlat", "n": n, "tn": tn}
 def incdec(l, dec=False, post=False): return {"k": "incdec", "l": l, "dec": dec, "post": post}
 def asg_e(op, l, r): return {"k": "asg", "op": op, "l": l, "r": r}
 
@@ -223,6 +229,10 @@ def rstmt(s, structs, ind=1):
         return t + "%s = __builtin_alloca(sizeof(%s) * (%s));\n" % (ctype({"k": "p", "t": s["t"]}, structs, s["n"]), ctype(s["t"], structs), r(s["len"]))
     if k == "vla":
         return t + ctype(s["t"], structs, "%s[%s]%s" % (s["n"], r(s["len"]), "[%s]" % r(s["len2"]) if "len2" in s else "")) + ";\n"
+    if k == "vtypedef":
+        return t + "typedef " + ctype(s["t"], structs, "%s[%s]%s" % (s["n"], r(s["len"]), "[%s]" % r(s["len2"]) if "len2" in s else "")) + ";\n"
+    if k == "vlat":
+        return t + "%s %s;\n" % (s["tn"], s["n"])
     if k == "block":
         return t + "{\n" + "".join(rstmt(x, structs, ind + 1) for x in s["ss"]) + t + "}\n"
     if k == "if":
